@@ -177,3 +177,24 @@ Definition globstar_ok (c : bytes * Z * bytes * bool) : bool :=
   | x => st =? status_of x
   end.
 Definition check_globstar := mismatches globstar_ok.
+
+From V Require Import C16.JsLex.
+(* js_lexer: (which, text, status, a, b, c, d)   status 3 = the typed LexerPanic (syntax error)
+   which 0 string/template first token: a = token kind (1 string, 2 no-substitution template, 3 template head),
+           b = lexer.end, c = len(text slice), d unused
+   which 1 ScanRegExp: a = lexer.end, b = lexer.current, c = lexer.codePoint *)
+Definition jslex_ok (x : Z * bytes * Z * Z * Z * Z) : bool :=
+  let '(which, t, st, a, b, c) := x in
+  if which =? 0 then
+    match run_jsstring t with
+    | Ok (Some (k, e, n)) => (st =? 0) && (a =? k) && (b =? e) && (c =? n)
+    | Ok None => st =? 3
+    | r => st =? status_of r
+    end
+  else
+    match run_regexp idc_sample t with
+    | Ok (Some l) => (st =? 0) && (a =? rlen l) && (b =? cur l) && (c =? cp l)
+    | Ok None => st =? 3
+    | r => st =? status_of r
+    end.
+Definition check_jslex := mismatches jslex_ok.
